@@ -86,7 +86,40 @@ func (l *Loaded) emitInfos(rel string) []*emitInfo {
 			continue
 		}
 		ei := &emitInfo{typ: nt, fn: fn, keys: map[string]string{}}
-		for _, g := range samePkgReach(fn) {
+		reach := samePkgReach(fn)
+		// strVia: a string constant, or a parameter of a shared helper bound to one constant at the call sites
+		// that this event's ToSDKEvent reaches
+		var strVia func(v ssa.Value, d int) (string, bool)
+		strVia = func(v ssa.Value, d int) (string, bool) {
+			if s, ok := strConst(v); ok {
+				return s, true
+			}
+			par, isPar := v.(*ssa.Parameter)
+			if !isPar || d > 3 {
+				return "", false
+			}
+			idx := -1
+			for i, q := range par.Parent().Params {
+				if q == par {
+					idx = i
+				}
+			}
+			found, val := false, ""
+			for _, h := range reach {
+				for _, call := range callsIn(h, false) {
+					if call.Common().StaticCallee() != par.Parent() || call.Common().IsInvoke() || idx >= len(call.Common().Args) {
+						continue
+					}
+					s, ok := strVia(call.Common().Args[idx], d+1)
+					if !ok || (found && s != val) {
+						return "", false
+					}
+					found, val = true, s
+				}
+			}
+			return val, found
+		}
+		for _, g := range reach {
 			for _, call := range callsIn(g, false) {
 				full := calleeFull(call)
 				if strings.HasSuffix(full, "cosmos-sdk/types.NewAttribute") {
@@ -105,9 +138,9 @@ func (l *Loaded) emitInfos(rel string) []*emitInfo {
 					}
 					switch k {
 					case "action":
-						ei.action, _ = strConst(call.Common().Args[1])
+						ei.action, _ = strVia(call.Common().Args[1], 0)
 					case "module":
-						ei.module, _ = strConst(call.Common().Args[1])
+						ei.module, _ = strVia(call.Common().Args[1], 0)
 					default:
 						ei.keys[k] = emitClass(call.Common().Args[1])
 					}
@@ -190,6 +223,18 @@ func (l *Loaded) parseCases(rel string) (map[string]*parseCase, *ssa.Function) {
 				case *ssa.Return:
 					if mi, ok := x.Results[0].(*ssa.MakeInterface); ok {
 						pc.typ = mi.X.Type().String()
+					} else if hc, k := callOf(x.Results[0]); hc != nil {
+						// the case body was moved into a new helper: the event it hands back
+						if g := newHelperCallee(hc); g != nil {
+							if k < 0 {
+								k = 0
+							}
+							for _, hv := range helperReturns(g, k) {
+								if mi, ok := hv.(*ssa.MakeInterface); ok {
+									pc.typ = mi.X.Type().String()
+								}
+							}
+						}
 					}
 				case *ssa.Call:
 					// collect Get* keys transitively
@@ -227,6 +272,7 @@ type effect struct {
 	kind string // "new", "update", "delete", or state constant name
 	site ssa.Instruction
 	obj  string // Sym of the object persisted
+	objv ssa.Value
 }
 
 // persistsValueParam: fn calls KVStore.Set with a value marshalled from the address of a (spilled) parameter.
@@ -277,18 +323,35 @@ var evPairs = map[string]map[string]string{
 // effectsOf lists the persisted effects of a keeper function (direct Set calls and calls of persisting helpers).
 func (c *Check) effectsOf(kinds map[string]*recKind, fn *ssa.Function, stateOf map[*ssa.Function][]*stateAssign) []effect {
 	var out []effect
-	states := func(objAlloc ssa.Value) []string {
+	states := func(objAlloc ssa.Value, owner *ssa.Function, write ssa.Instruction) []string {
 		var ks []string
-		for _, sa := range stateOf[fn] {
+		for owner != nil && owner.Parent() != nil {
+			owner = owner.Parent()
+		}
+		sas := stateOf[fn]
+		if owner != nil && owner != fn {
+			sas = stateOf[owner] // the write (and the state it persists) sits in a new helper of fn
+		}
+		for _, sa := range sas {
 			fa := sa.st.Addr.(*ssa.FieldAddr)
 			if fa.X == objAlloc {
 				if isConstruction(sa) {
 					continue
 				}
-				if sa.vals == nil {
+				vals := sa.vals
+				if sa.valPar != nil && owner != nil && owner != fn {
+					// the helper assigns the state it is handed: for THIS function that is the argument at its own call
+					vals = nil
+					if site, ok := liftTo(fn, write).(ssa.CallInstruction); ok && site.Common().StaticCallee() == owner {
+						if arg := argFor(site, owner, paramIndex(owner, sa.valPar)); arg != nil {
+							vals = c.L.constSetThroughCallers(arg, 0)
+						}
+					}
+				}
+				if vals == nil {
 					ks = append(ks, "?")
 				}
-				for k := range sa.vals {
+				for k := range vals {
 					ks = append(ks, sa.rk.states[k])
 				}
 			}
@@ -307,7 +370,7 @@ func (c *Check) effectsOf(kinds map[string]*recKind, fn *ssa.Function, stateOf m
 		if isStoreSet(call) {
 			obj = marshalledObj(call)
 		} else if g := call.Common().StaticCallee(); g != nil && fnPkgPath(g) == fnPkgPath(fn) {
-			if p := persistsValueParam(g); p != nil && g != fn {
+			if p := persistsValueParam(g); p != nil && g != fn && !(isNewFunc(g) && g.Parent() == nil) { // (a new helper's own Set is already in the scan)
 				a := argFor(call, g, paramIndex(g, p))
 				// argument is a load of the local record variable
 				if u, ok := a.(*ssa.UnOp); ok {
@@ -331,7 +394,7 @@ func (c *Check) effectsOf(kinds map[string]*recKind, fn *ssa.Function, stateOf m
 		if _, ok := evPairs[typ]; !ok {
 			continue
 		}
-		ks := states(obj)
+		ks := states(obj, call.Parent(), call)
 		kind := "update"
 		if a, ok := obj.(*ssa.Alloc); ok {
 			whole := false
@@ -345,9 +408,22 @@ func (c *Check) effectsOf(kinds map[string]*recKind, fn *ssa.Function, stateOf m
 			}
 		}
 		// a write behind !store.Has(..) creates, behind store.Has(..) updates
-		if boolCallFactAt(call.Block(), false, func(h *ssa.Call, _ int) bool { return calleeMethod(h) == "Has" }) {
+		hasFact := func(want bool) bool {
+			isHas := func(h *ssa.Call, _ int) bool { return calleeMethod(h) == "Has" }
+			if boolCallFactAt(call.Block(), want, isHas) {
+				return true
+			}
+			// the write sits in a new helper shared by several callers: the guard is at this caller's call of it
+			if call.Parent() != fn {
+				if li := liftTo(fn, call); li != nil && li.Parent() == fn {
+					return boolCallFactAt(li.Block(), want, isHas)
+				}
+			}
+			return false
+		}
+		if hasFact(false) {
 			kind = "new"
-		} else if boolCallFactAt(call.Block(), true, func(h *ssa.Call, _ int) bool { return calleeMethod(h) == "Has" }) {
+		} else if hasFact(true) {
 			kind = "update"
 		}
 		if deletes {
@@ -355,11 +431,11 @@ func (c *Check) effectsOf(kinds map[string]*recKind, fn *ssa.Function, stateOf m
 		}
 		if len(ks) > 0 {
 			for _, k := range ks {
-				out = append(out, effect{typ: typ, kind: k, site: call, obj: Sym(obj)})
+				out = append(out, effect{typ: typ, kind: k, site: call, obj: Sym(obj), objv: obj})
 			}
 			continue
 		}
-		out = append(out, effect{typ: typ, kind: kind, site: call, obj: Sym(obj)})
+		out = append(out, effect{typ: typ, kind: kind, site: call, obj: Sym(obj), objv: obj})
 	}
 	return out
 }
@@ -450,6 +526,7 @@ func checkC16(c *Check) {
 	for _, sa := range sas {
 		stateOf[sa.fn] = append(stateOf[sa.fn], sa)
 	}
+	pairsUndecided := 0
 	npairs := 0
 	lifecycleEvents := map[string]bool{}
 	for _, m := range evPairs {
@@ -529,6 +606,19 @@ func checkC16(c *Check) {
 					return false
 				}
 				ok := len(ems) > 0
+				if !ok {
+					unknown := false
+					for _, et := range emits {
+						if et == "?" {
+							unknown = true
+						}
+					}
+					if unknown {
+						// an event is emitted whose type is chosen elsewhere (a helper picks it): whether it is this one is not decided
+						c.Info("R2", inst+": the emitted event's type is not visible at the emit site, pairing not decided", sets[0].Pos(), "")
+						continue
+					}
+				}
 				detail := "record change is persisted but " + ev + " is never emitted in this function"
 				if ok {
 					detail = ""
@@ -587,6 +677,52 @@ func checkC16(c *Check) {
 						if strings.Contains(evs, "AccAddressFromBech32("+o+".Owner)") {
 							okid = true
 						}
+						// the write and the emit sit in different new helpers of this function: the same record once the
+						// helpers' parameters are followed to the arguments they were called with
+						if !okid && ef.objv != nil && len(ctorArgsOf(inner)) > 0 {
+							if idc, isC := ctorArgsOf(inner)[0].(*ssa.Call); isC && calleeMethod(idc) == "ID" && len(idc.Call.Args) == 1 {
+								rootOf := func(v ssa.Value) string {
+									if al, isA := v.(*ssa.Alloc); isA {
+										if pp := paramOfAlloc(al); pp != nil {
+											v = pp
+										}
+									}
+									r := recordRoot(v)
+									s := strings.TrimPrefix(strings.TrimPrefix(Sym(r), "&"), "*")
+									if in, isI := r.(ssa.Instruction); isI && in.Parent() != nil {
+										return fnName(in.Parent()) + ":" + s
+									}
+									if pp, isP := r.(*ssa.Parameter); isP {
+										return fnName(pp.Parent()) + ":" + s
+									}
+									return s
+								}
+								if a, b := rootOf(idc.Call.Args[0]), rootOf(ef.objv); a == b && (idc.Parent() != fn || ef.site.Parent() != fn) {
+									okid = true
+								}
+							}
+						}
+						// the id comes out of a new helper shared by several callers: read what the helper returns at that
+						// position, with its parameter standing for the argument of this call
+						if len(ctorArgsOf(inner)) > 0 {
+							if ex, isEx := callerValue(ctorArgsOf(inner)[0]).(*ssa.Extract); isEx {
+								if hc, isHC := ex.Tuple.(*ssa.Call); isHC {
+									if g := newHelperCallee(hc); g != nil {
+										bare := func(s string) string {
+											return strings.TrimPrefix(strings.TrimPrefix(strings.TrimPrefix(s, "&"), "local:"), "p:")
+										}
+										for _, rv := range helperReturns(g, ex.Index) {
+											rs := Sym(rv)
+											for pi, prm := range g.Params {
+												if pi < len(hc.Call.Args) && strings.Contains(rs, "AccAddressFromBech32(p:"+paramName(prm)+".Owner)") && bare(Sym(hc.Call.Args[pi])) == bare(o) {
+													okid = true
+												}
+											}
+										}
+									}
+								}
+							}
+						}
 						// the expression the persisted object's id field was initialised with, written out again
 						ctorCall := inner
 						if len(inner.Call.Args) > 0 && calleeMethod(inner) == "ToSDKEvent" {
@@ -611,14 +747,20 @@ func checkC16(c *Check) {
 			}
 			// emits of lifecycle types without a paired write in this function
 			for in, t := range emits {
-				if !usedEmit[in] && (lifecycleEvents[t] || t == "?") {
+				if !usedEmit[in] && t == "?" {
+					// the event is not built in place (it comes out of a helper): its type, and so its pairing, is not decided
+					c.Info("R2", fnName(fn)+": an event of a type that is not visible at the emit site is emitted, pairing not decided", in.Pos(), "")
+					pairsUndecided++
+					continue
+				}
+				if !usedEmit[in] && lifecycleEvents[t] {
 					c.Ob("R2", fnName(fn)+": "+t+" emitted only together with its record change", in.Pos(), false, t+" is emitted but no corresponding record change is persisted in this function")
 				}
 			}
 		}
 	}
 	c.eventSwitchExhaustive("R2", []string{"x/deployment/keeper", "x/market/keeper", "x/provider/keeper", "x/audit/keeper"})
-	if npairs < 16 {
+	if npairs < 16-pairsUndecided {
 		c.Fail("C16-R2 lost instances: %d pairs", npairs)
 	}
 	// events emitted on a branched context are lost: sdk.Context.CacheContext() comes with a fresh event manager, so
@@ -685,9 +827,29 @@ func checkC16(c *Check) {
 
 	// ---- R7 no closed/paused/started event for a record already in that state
 	nself := 0
+	selfAdj := 0
 	for _, sa := range sas {
-		if isConstruction(sa) || sa.vals == nil || len(emitsOf(sa.fn)) == 0 {
+		emitter := sa.fn
+		for d := 0; d < 4 && isNewFunc(emitter) && emitter.Parent() == nil; d++ {
+			site := transparentSite(emitter)
+			if site == nil {
+				break
+			}
+			emitter = site.Parent() // the event may be emitted by a sibling helper of the same pinned function
+			for emitter.Parent() != nil {
+				emitter = emitter.Parent()
+			}
+		}
+		if isConstruction(sa) || sa.vals == nil || (len(emitsOf(sa.fn)) == 0 && len(emitsOf(emitter)) == 0) {
 			continue
+		}
+		if sa.valPar != nil && isNewFunc(sa.fn) {
+			if ns := len(l.callSitesOf(sa.fn)); ns > 1 {
+				// the merged helper of several transitions: which guard goes with which state is a per-caller question
+				c.Info("R7", fnName(sa.fn)+": state assigned from a parameter in a new helper with "+itoa(ns)+" callers, no-op events not decided", sa.st.Pos(), "")
+				selfAdj += ns
+				continue
+			}
 		}
 		nself++
 		self := ""
@@ -708,7 +870,7 @@ func checkC16(c *Check) {
 		}
 		c.Ob("R7", fnName(sa.fn)+": "+sa.rk.name+" -> "+sa.rk.setString(sa.vals)+" (with its event) never applies to a record already in that state", sa.st.Pos(), self == "", "guards admit a record that is already "+self+": the event is emitted again although nothing changed (admitted prior states "+sa.rk.setString(pre)+" via "+strings.Join(sa.sites, " ; ")+")")
 	}
-	if nself < 7 {
+	if nself < 7-selfAdj {
 		c.Fail("C16-R7 lost instances: %d event-emitting transitions", nself)
 	}
 }
@@ -849,4 +1011,33 @@ func (c *Check) eventSwitchExhaustive(rule string, rels []string) {
 			}
 		}
 	}
+}
+
+// ctorArgsOf: the arguments of the event constructor behind an EmitEvent argument (X.ToSDKEvent() or the constructor /
+// literal itself): for a struct literal, the values stored into its fields.
+func ctorArgsOf(inner *ssa.Call) []ssa.Value {
+	var v ssa.Value = inner
+	if calleeMethod(inner) == "ToSDKEvent" && len(inner.Call.Args) > 0 {
+		v = inner.Call.Args[0]
+	}
+	if cc, ok := v.(*ssa.Call); ok {
+		return cc.Call.Args
+	}
+	// a composite literal: loaded from an alloc whose fields were stored
+	if ld, ok := v.(*ssa.UnOp); ok {
+		if al, isA := ld.X.(*ssa.Alloc); isA && al.Referrers() != nil {
+			var out []ssa.Value
+			for _, r := range *al.Referrers() {
+				if fa, isFA := r.(*ssa.FieldAddr); isFA && fa.Referrers() != nil {
+					for _, r2 := range *fa.Referrers() {
+						if st, isS := r2.(*ssa.Store); isS && st.Addr == ssa.Value(fa) {
+							out = append(out, st.Val)
+						}
+					}
+				}
+			}
+			return out
+		}
+	}
+	return nil
 }
